@@ -4,6 +4,7 @@ package main
 
 import (
 	"fmt"
+	"go/token"
 	"sort"
 	"strings"
 
@@ -215,6 +216,15 @@ func checkC10(c *Check) {
 	c.Expect("6/serialised", 10)
 	// the parameters acted upon are those of this request (no field inherited from the previous message)
 	checkFreshDecode(c, "7/request-is-fresh")
+
+	// a sandboxed program cannot end the container init with a catchable signal
+	checkIgnoredSignals(c, "8/init-survives-signals", nil, []string{"SIGHUP", "SIGINT", "SIGTERM", "SIGQUIT", "SIGILL", "SIGTRAP", "SIGABRT", "SIGSYS"})
+	c.Expect("8/init-survives-signals", 1)
+
+	// the handler of a running program and the container's wait goroutine cannot wait for each other: the handler's
+	// (unbuffered) request "reap everything" is sent either after it has taken the main result, or while the result
+	// channel has room for it (the wait goroutine delivers the main result before it looks at requests again)
+	checkNoCircularWait(c, "9/no-circular-wait")
 }
 
 func lastCall(trace []string) string {
@@ -279,4 +289,78 @@ func methodLanguages(m *cfsm) map[string][]string {
 		}
 	}
 	return out
+}
+
+func checkNoCircularWait(c *Check, rule string) {
+	p := c.P
+	hs := p.Func("container", "containerServer.handleExecveStarted")
+	if hs == nil {
+		c.Undecided(rule, "container.handleExecveStarted", "-", "function not found")
+		return
+	}
+	// capacity of the result channel, where the server is built
+	capRes := int64(-1)
+	for _, fn := range p.PkgFuncs("container") {
+		for _, b := range fn.Blocks {
+			for _, in := range b.Instrs {
+				st, ok := in.(*ssa.Store)
+				if !ok {
+					continue
+				}
+				fa, ok := st.Addr.(*ssa.FieldAddr)
+				if !ok || fieldName(fa.X.Type(), fa.Field) != "waitPidResult" {
+					continue
+				}
+				if mk, ok := st.Val.(*ssa.MakeChan); ok {
+					if v, isC := constInt(mk.Size); isC {
+						capRes = v
+					}
+				}
+			}
+		}
+	}
+	isResultRecv := func(in ssa.Instruction) bool {
+		u, ok := in.(*ssa.UnOp)
+		return ok && u.Op == token.ARROW && strings.HasSuffix(describe(u.X), ".waitPidResult")
+	}
+	// the select arm that received the result counts as having it
+	resultArm := map[string]int{}
+	for _, b := range hs.Blocks {
+		for _, in := range b.Instrs {
+			if s, ok := in.(*ssa.Select); ok {
+				for k, st := range s.States {
+					if strings.HasSuffix(describe(st.Chan), ".waitPidResult") {
+						resultArm[describe(s)] = k
+					}
+				}
+			}
+		}
+	}
+	edgeOK := func(bb *ssa.BasicBlock, k int) bool {
+		if iff := blockIf(bb); iff != nil {
+			a, neg := condLit(iff.Cond)
+			for sel, idx := range resultArm {
+				if a == fmt.Sprintf("%s#0 == %d", sel, idx) && ((k == 0) != neg) {
+					return false // this edge is the arm that already holds the result
+				}
+			}
+		}
+		return true
+	}
+	n := 0
+	for _, b := range hs.Blocks {
+		for _, in := range b.Instrs {
+			snd, ok := in.(*ssa.Send)
+			if !ok || !strings.HasSuffix(describe(snd.Chan), ".waitAll") {
+				continue
+			}
+			n++
+			early, trail := pathQuery{fn: hs, target: func(x ssa.Instruction) bool { return x == ssa.Instruction(snd) }, stop: isResultRecv, edgeOK: edgeOK}.find()
+			c.Cond(!early || capRes >= 1, rule, fmt.Sprintf("container.%s:waitAll#%d", hs.Name(), n), p.Pos(snd.Pos()),
+				fmt.Sprintf("reap-all is requested after the main result was taken, or the result channel is buffered (capacity %d)", capRes),
+				"the handler requests reap-all before it has taken the main result ("+p.trail(trail)+") and the result channel is unbuffered: the wait goroutine blocks delivering the result while the handler blocks delivering the request — the container never answers again")
+		}
+	}
+	c.Cond(n >= 1 && capRes >= 0, rule, "container."+hs.Name()+":sites", p.Pos(hs.Pos()), fmt.Sprintf("%d reap-all requests, result channel capacity %d", n, capRes), "cannot find the reap-all requests or the construction of the result channel")
+	c.Expect(rule, 3)
 }
